@@ -234,7 +234,95 @@ def rule_bisection_nan(ctx):
     ctx.covered('R03.6', 'bisection fallback of the Kepler solver decides on a finite value (a NaN from overflowing Stiefel functions is handled explicitly)', n, floor=1, samples=samples)
 
 
+def rule_split_mass_agreement(ctx, rule='R03.7'):
+    """R03.7: a Wisdom-Holman splitting that lets the Kepler step attract with a central mass M which is not the physical
+    one has to give the difference back in the kick: the interaction step of that coordinate system adds +G M x/|x|^3.
+    The two sites must name the same M (per case of the switch over ri_whfast.coordinates); otherwise the sum of drift and
+    kick is not the N-body Hamiltonian and the energy error has a floor that does not shrink with dt."""
+    from . import extents
+    tu = cfront.load_tu('integrator_whfast.c')
+    kep, kick = tu.func('reb_whfast_kepler_step'), tu.func('reb_whfast_interaction_step')
+
+    def cases(fn):
+        out = {}
+        for sw in walk(cfront.body(fn)):
+            if sw.get('kind') != 'SwitchStmt':
+                continue
+            body = sw['inner'][-1]
+            cur = None
+            for st in body.get('inner', []):
+                node = st
+                while node.get('kind') in ('CaseStmt', 'DefaultStmt'):
+                    if node.get('kind') == 'CaseStmt':
+                        lab = [x for x in walk(node['inner'][0]) if x.get('kind') == 'DeclRefExpr' and x.get('referencedDecl', {}).get('kind') == 'EnumConstantDecl']
+                        cur = lab[0]['referencedDecl']['name'] if lab else None
+                    else:
+                        cur = None
+                    node = node['inner'][-1]
+                if cur:
+                    out.setdefault(cur, []).append(node)
+        return out
+
+    def canon(txt, L):
+        return extents.canon(extents.resolve(txt, L))
+
+    def mass_factor(e, L, Gnames):
+        """M of a product G*M (either order), rendered with locals resolved; None if e is not such a product"""
+        e = strip(e, casts=True)
+        if e.get('kind') == 'BinaryOperator' and e['opcode'] == '*':
+            a, b = strip(e['inner'][0], casts=True), strip(e['inner'][1], casts=True)
+            for g, m in ((a, b), (b, a)):
+                if canon(render(g), L) in Gnames:
+                    return m
+        return None
+    Lk, Li = extents.lets(kep), extents.lets(kick)
+    Gn = {'r.G'}
+    kc, ic = cases(kep), cases(kick)
+    anchor(len(kc) >= 4 and len(ic) >= 4, 'switch over the coordinate systems in the Kepler and interaction steps')
+    n = 0
+    samples = []
+    for const in sorted(ic):
+        # compensation terms of the kick: locals initialised as G*M/(cube of a distance)
+        comp = []
+        for st in ic[const]:
+            for d in walk(st):
+                if d.get('kind') == 'VarDecl' and 'init' in d:
+                    init = [c for c in d.get('inner', []) if c.get('kind') not in ('FullComment',)]
+                    if not init:
+                        continue
+                    i0 = strip(init[-1], casts=True)
+                    if i0.get('kind') == 'BinaryOperator' and i0['opcode'] == '/':
+                        m = mass_factor(i0['inner'][0], Li, Gn)
+                        if m is not None:
+                            comp.append((canon(render(m), Li), line_of(d)))
+        if not comp:
+            continue
+        # central mass of the Kepler step in the same case: G*eta with eta as last assigned in the case
+        last = {}
+        masses = []
+        for st in kc.get(const, []):
+            for e in walk(st):
+                if cfront.is_assign(e) and e['opcode'] == '=' and strip(e['inner'][0]).get('kind') == 'DeclRefExpr':
+                    last[render(e['inner'][0])] = render(e['inner'][1])
+                if e.get('kind') == 'CallExpr' and callee_name(e) == SOLVER:
+                    m = mass_factor(call_args(e)[2], Lk, Gn)
+                    if m is not None:
+                        txt = render(m)
+                        masses.append((canon(last.get(txt, txt), Lk), line_of(e)))
+        anchor(masses, 'Kepler step of %s calls the solver with G times a mass' % const)
+        for cm, cl in comp:
+            n += 1
+            if not any(cm == km for km, _ in masses):
+                ctx.report(rule, 'split-mass:%s' % const, 'src/integrator_whfast.c:%s reb_whfast_interaction_step' % cl,
+                           'under %s the kick gives back G*%s*x/|x|^3, but the Kepler step (line %s) attracts with G*%s: the two halves of the splitting no longer add up to the N-body Hamiltonian'
+                           % (const, cm, masses[0][1], masses[0][0]))
+            else:
+                samples.append('%s: kick compensates G*%s, Kepler step attracts with the same mass' % (const, cm))
+    ctx.covered(rule, 'coordinate systems whose kick compensates the central attraction of the Kepler step: same mass at both sites', n, floor=1, samples=samples)
+
+
 def run(ctx):
+    rule_split_mass_agreement(ctx)
     rule_bisection_nan(ctx)
     tables.rule_tables(ctx, 'R03.1')
     callers = rule_scope(ctx)
